@@ -70,9 +70,13 @@ def welford_fails(vs, check_var=True):
         t.update(v)
     n = len(vs)
     M = max(abs(v) for v in vs)
-    mean, var = float(t.mean), float(t.var)
-    if not (math.isfinite(mean) and math.isfinite(var) and math.isfinite(float(t.std))):
-        return f"non-finite result mean={mean} var={var} on finite inputs"
+    try:
+        mean, var, std = float(t.mean), float(t.var), t.std
+        std = float(std)
+    except TypeError:
+        return f"std is not a real number ({t.std!r}) for var={t.var!r} on finite inputs"
+    if not (math.isfinite(mean) and math.isfinite(var) and math.isfinite(std)):
+        return f"non-finite result mean={mean} var={var} std={std} on finite inputs"
     em, ev = exact_mean_var(vs) if check_var else (sum(Fraction(v) for v in vs) / n, None)
     err = abs(Fraction(mean) - em)
     bound = Fraction(6 * n) * Fraction(U) * Fraction(M)
@@ -108,6 +112,23 @@ def es_fails(alpha, vs):
         return f"smoothing error {float(err):.3e} exceeds 4*u*max|v|/alpha = {float(bound):.3e} (alpha={alpha}, n={len(vs)})"
     if abs(got) > 1.25 * M:
         return f"|smoothed value| {abs(got):.3e} exceeds 5/4 max|v|"
+    return None
+
+
+def extreme_es_fails(rng):
+    """finite inputs of extreme magnitude (up to 1.7e308) with sign changes: the smoothed value is a convex combination of 0 and the
+    inputs, hence finite; an implementation that forms `v - t` first overflows"""
+    from ixai.utils.tracker import ExponentialSmoothingTracker
+    for alpha in (1.0, 0.5, 0.001):
+        big = rng.choice([1.5e308, 1.7e308, 9.9e307])
+        patterns = [[big, -big, big, -big], [-big] * 300 + [big], [big] * 5 + [-big] * 5, [big * 0.999, -big, 0.0, big]]
+        for vs in patterns:
+            t = ExponentialSmoothingTracker(alpha)
+            for i, v in enumerate(vs):
+                t.update(v)
+                got = t.get()
+                if not math.isfinite(got) or abs(got) > big * 1.0000001:
+                    return alpha, vs[:i + 1][-6:], f"after {i + 1} finite inputs of magnitude {big:.3g} (alpha={alpha}) the smoothed value is {got}"
     return None
 
 
@@ -183,6 +204,10 @@ def run(tier="quick", seed=0, replay=None):
                 if f:
                     chk.violation("es-float", f"ExponentialSmoothingTracker in float, {shape} stream: {f}",
                                   {"tracker": "es", "alpha": alpha, "vs_bits": [bits(v) for v in vs[:5000]], "n": n})
+    ex = extreme_es_fails(rng)
+    chk.case({"oracle": "es-extreme-magnitudes"}, nontrivial=True, sample=False)
+    if ex:
+        chk.violation("es-overflow", f"ExponentialSmoothingTracker in float: {ex[2]}", {"tracker": "es", "alpha": ex[0], "vs_bits": [bits(v) for v in ex[1]], "n": len(ex[1])})
     chk.exhaustive = False
     chk.extra["explanation"] = ("Stage A: es_fl_error (4uM/alpha), welford_mean_fl_error (6nuM), boundedness of mean, sum of "
                                 "squares and variance, increment non-negativity — theorems over the fl-wrapped kernels "
